@@ -45,7 +45,6 @@ extern "C" {
 #endif
 
 #define FIBER_DEFAULT_STACK_SIZE (102400)
-#define FIBER_MIN_STACK_SIZE (1024)
 
 extern fiber_t* fiber_create(size_t stack_size, fiber_run_function_t run,
                              void* param);
